@@ -19,7 +19,8 @@ class C04(c01.C01):
                          'supplier_amounts_do_not_add_up_to_supply.judged',
                          'participant_variable_not_market_assigned_amount.judged',
                          'sector_ledger_not_sum_of_declared_flows.judged', 'asset_demands_do_not_add_up_to_wealth.judged',
-                         'models.judged.with_portfolio_rule_object_shared_by_households')
+                         'models.judged.with_portfolio_rule_object_shared_by_households',
+                         'models.judged.with_prefix_related_market_codes_and_household_in_both')
     which = ('markets', 'ledger')
 
     def make_case(self, rng, idx, tier):
